@@ -28,6 +28,13 @@ NOT_DECIDED = {
             "SMT clauses and the Lean statements are related by hand transcription",
             "the utilities are verified for an ARBITRARY neighbourhood callable abstracted to the set of strings it yields; order and multiplicity "
             "of what a generator yields are not modelled for callables passed as arguments"],
+    "C13": ["TERM LEVEL: tables are opaque; pc / pc_joint / pcDelta / stdpc / stdpc_joint of an opaque table or group are uninterpreted applications "
+            "of those functions (their own contracts are discharged under C02 / C05 / C06 on modelled tables); pandas groupby / filter / apply are "
+            "assumed contracts (groups in sorted key order; apply = per-group values in group order; filter = rows of the groups satisfying the predicate)",
+            "pc_grouped_cross and pcDelta_grouped_cross (loops over itertools.combinations feeding squareform): contracts NOT discharged, evaluated on the "
+            "real code as bounded stand-ins (listed under bounded_standins); pcDelta_grouped_cross is covered for the scalar bins=0 form only (the "
+            "square form is undefined for vector results, see DESIGN section 5/C13)",
+            "stdpc_joint is an uninterpreted statistic here (its body is not verified)"],
     "C15": ["what igraph computes: 'connected_components().membership labels two vertices alike exactly when a path of edges joins them' and "
             "'community_* never merges different components' are ASSUMED contracts of igraph (third-party C library), not decided",
             "what SciPy's linkage / fcluster compute, and the cross-module clause 'single linkage cut at t = connected components of the max_edits = t "
